@@ -1348,7 +1348,12 @@ class HealSparseMap(object):
             dtypeOut = single_map._sparse_map.dtype
 
         # Create an empty HEALPix map, filled with UNSEEN values
-        hp_map = np.full(hpg.nside_to_npixel(nside), hpg.UNSEEN, dtype=dtypeOut)
+        # (a boolean map cannot hold UNSEEN; it is filled with its sentinel)
+        if np.dtype(dtypeOut) == np.bool_:
+            fill_value = single_map._sentinel
+        else:
+            fill_value = hpg.UNSEEN
+        hp_map = np.full(hpg.nside_to_npixel(nside), fill_value, dtype=dtypeOut)
 
         valid_pixels = single_map.valid_pixels
         if not nest:
